@@ -131,7 +131,7 @@ Fixpoint task_cancel_free (t : task) : bool :=
   match t with
   | TRet => true
   | TEmit _ _ k | TNotify _ _ k | TReq _ _ _ k | TJoin _ k | TYield _ k | TLegReq _ _ _ k => task_cancel_free k
-  | TBoth _ _ _ _ _ _ k | TBothL _ _ _ _ _ _ k | TRace _ _ _ _ _ k => task_cancel_free k
+  | TBoth _ _ _ _ _ _ k | TBothL _ _ _ _ _ _ k | TBothJ _ _ _ _ k | TRace _ _ _ _ _ k => task_cancel_free k
   | TForEach _ _ _ b k => task_cancel_free b && task_cancel_free k
   | TSpawn c _ k => task_cancel_free c && task_cancel_free k
   | TAbortT _ _ | TAbortC _ _ => false
